@@ -235,7 +235,7 @@ func parse[D []byte | string](d D, op Payload) (Decimal, error) {
 
 func parseNumber[D []byte | string](d D, neg, sepallowed bool) (Decimal, error) {
 	var sig64 uint64
-	var nfrac int16
+	var nfrac int
 	var trunc int8
 	caneof := false
 	cansep := false
@@ -295,8 +295,7 @@ func parseNumber[D []byte | string](d D, neg, sepallowed bool) (Decimal, error) 
 	}
 
 	sig := uint128{sig64, 0}
-	var exp int16
-	maxexp := false
+	var exp int
 
 	for ; i < l; i++ {
 		switch c := d[i]; true {
@@ -308,12 +307,12 @@ func parseNumber[D []byte | string](d D, neg, sepallowed bool) (Decimal, error) 
 			sawdig = true
 
 			if sawexp {
-				if exp > exponentBias/10+1 {
-					maxexp = true
+				// beyond this the exponent decides the result whatever
+				// the number of digits in the significand
+				if exp < 1<<40 {
+					exp *= 10
+					exp += int(c - '0')
 				}
-
-				exp *= 10
-				exp += int16(c - '0')
 			} else {
 				if sig[1] <= 0x18ff_ffff_ffff_ffff {
 					if sig[1] <= 0x027f_ffff_ffff_ffff && i < l-1 {
@@ -343,9 +342,7 @@ func parseNumber[D []byte | string](d D, neg, sepallowed bool) (Decimal, error) 
 					}
 
 					if !sawdot {
-						if exp < exponentBias+39 {
-							nfrac--
-						}
+						nfrac--
 					}
 				}
 			}
@@ -406,20 +403,6 @@ func parseNumber[D []byte | string](d D, neg, sepallowed bool) (Decimal, error) 
 		return zero(neg), nil
 	}
 
-	// If the exponent value is larger than the maximum supported exponent,
-	// there are two cases where the value is still valid:
-	//  - the exponent is negative, where the logical value rounds to 0
-	//  - the significand is zero, where the logical value is 0
-	//
-	// Otherwise, return a range error.
-	if maxexp {
-		if eneg {
-			return zero(neg), nil
-		}
-
-		return inf(neg), parseNumberRangeError{}
-	}
-
 	if eneg {
 		exp *= -1
 	}
@@ -434,13 +417,13 @@ func parseNumber[D []byte | string](d D, neg, sepallowed bool) (Decimal, error) 
 		return zero(neg), nil
 	}
 
-	sig, exp = DefaultRoundingMode.reduce128(neg, sig, exp+exponentBias, trunc)
+	sig, exp16 := DefaultRoundingMode.reduce128(neg, sig, int16(exp+exponentBias), trunc)
 
-	if exp > maxBiasedExponent {
+	if exp16 > maxBiasedExponent {
 		return inf(neg), parseNumberRangeError{}
 	}
 
-	return compose(neg, sig, exp), nil
+	return compose(neg, sig, exp16), nil
 }
 
 type parseNumberRangeError struct{}
